@@ -63,9 +63,12 @@ CHECKS = {
              'their enclosing CREATE TABLE) and of every reference.sql; oracle: every FK read back by the independent DDL reader with '
              'its host and compared as a multiset with expectations computed from the references (direction, column order, '
              'CONSTRAINT, actions, inline vs ALTER never both, join tables incl. name and schema). Nine theorems about the model '
-             'state the direction / once-only / join-table rules (C04.lean).',
+             'state the direction / once-only / join-table rules (C04.lean); read_render_fk (C04Read.lean): a reader of ALTER TABLE ... '
+             'FOREIGN KEY statements written in Lean (text only) provably reads back from the model\'s statement the key holder as the '
+             'altered table, both column lists in order, the referenced table, CONSTRAINT exactly when named, the actions; the same '
+             'reader, compiled into the driver, is run on reference.sql of the real code.',
         note=TB + '; DDL reader',
-        technique='Lean model + theorems + differential correspondence + DDL-reader oracle'),
+        technique='Lean model + theorems incl. a proved FOREIGN KEY reader run on the real output + differential correspondence + DDL-reader oracle'),
     'C05': dict(
         level='translation_validation',
         text='Oracle on real parsed graphs: every identity fact of the statement evaluated with `is` (reference endpoints are the very '
